@@ -39,10 +39,38 @@ func main() {
 				s.Do("new", ringh.U(j))
 			}
 			probe := func(tag string) {
-				for k := 0; k < 5; k++ {
+				// the busy nodes and their ring neighbours are probed first, then random members
+				var targets []uint64
+				for _, m := range members {
+					if st := s.StateName(m); st == "Transferring" || st == "Leaving" {
+						targets = append(targets, m)
+						for _, x := range members {
+							if sx, ok := s.SuccOf(x); ok && sx == m && x != m {
+								targets = append(targets, x)
+							}
+						}
+					}
+				}
+				for k := 0; k < 5+2*len(targets); k++ {
 					m := hlib.Pick(rng, members)
+					if k < 2*len(targets) {
+						m = targets[k/2]
+					}
+					stillMember := false
+					for _, x := range members {
+						if x == m {
+							stillMember = true
+						}
+					}
+					if !stillMember {
+						continue
+					}
 					var lhs []string
-					switch rng.Intn(3) {
+					choice := rng.Intn(3)
+					if k < 2*len(targets) {
+						choice = 1 + k%2 // reqleave, then execleave at each busy node / neighbour
+					}
+					switch choice {
 					case 0:
 						j := spare[1+rng.Intn(len(spare)-1)]
 						lhs = []string{"reqjoin", ringh.U(m), ringh.U(j)}
